@@ -620,7 +620,7 @@ OWN = {
         "included_range_differences": "ts_current_free((&self->included_range_differences)->contents)",
         "dot_graph_file": None, "accept_count": None, "operation_count": None, "parse_options": None, "parse_state": None, "included_range_difference_index": None,
         "has_scanner_error": None, "canceled_balancing": None, "has_error": None,
-        "resume_position": None, "resume_last_position": None, "resume_version": None},
+        "resume_position": None, "resume_last_position": None, "resume_version": None, "canceled_parsing": None},
     ("TSQuery", "ts_query_delete"): {
         "captures": "symbol_table_delete(&self->captures)", "predicate_values": "symbol_table_delete(&self->predicate_values)",
         "capture_quantifiers": "ts_current_free((&self->capture_quantifiers)->contents)", "steps": "ts_current_free((&self->steps)->contents)", "pattern_map": "ts_current_free((&self->pattern_map)->contents)",
@@ -841,6 +841,66 @@ def rule_copied_cursor(ctx, F):
         ctx.on_all_paths("K2", "ts_subtree_get_changed_ranges:%s-written-back" % p["name"], fn, back, "the iterator's (possibly reallocated) cursor is stored back through `%s`" % p["name"])
 
 
+def rule_pop_once(ctx, F):
+    """K3: ts_stack_pop_error takes exactly one path off the stack.  Its callback answers Pop at most once per walk —
+    guarded by the one-shot flag in its payload, which it sets when it does — because the caller keeps only slice 0
+    (`ts_assert(pop.size == 1)`): a second slice is never released (leak under NDEBUG, assertion otherwise)."""
+    fn = ctx.need_fn(F, "pop_error_callback", "K3")
+    if not fn:
+        return
+    pops = [pt for pt, e in fn.points() if e.get("k") == "ret" and e.get("e") is not None and isinstance(strip(e["e"]).get("v"), int) and strip(e["e"])["v"] & 2]
+    if not pops:
+        pops = [pt for pt, e in fn.points() if e.get("k") == "ret" and "StackActionPop" in show(e)]
+    ctx.floor("Pop answers of pop_error_callback", len(pops), 1)
+    payload = fn.params[0]["name"] if fn.params else "payload"
+    flag = bind(fn, "found_error", payload)
+    ctx.gate("K3", fn, pops, [("Pop is answered only while the one-shot flag is still clear", [("!*%s" % flag, True), ("*%s" % flag, False)])], accept_desc="answering Pop")
+    sets = [pt for pt, n in find(fn, "*%s = 1" % flag)]
+    ctx.before("K3", "pop_error_callback:flag-set-when-popping", fn, pops, sets, "the flag is set before Pop is answered")
+    g = ctx.need_fn(F, "ts_stack_pop_error", "K3")
+    if g:
+        calls = [c for pt, c in g.calls() if callee_name(c) == "stack__iter"]
+        ok = calls and all(len(c.get("a", [])) > 3 and strip(c["a"][3]).get("k") == "un" and strip(c["a"][3]).get("op") == "&" for c in calls)
+        if ok:
+            ctx.ok("K3", "ts_stack_pop_error:passes-the-flag", "ts_stack_pop_error hands the callback the address of a local flag")
+        else:
+            ctx.bad("K3", "ts_stack_pop_error:passes-the-flag", "ts_stack_pop_error no longer passes a one-shot flag to its callback: every ERROR link of the head node is popped, the extra slices are never released")
+
+
+SCOPED_OWNERS = {"capture_quantifiers_new": ("capture_quantifiers_delete", ("array_push", "_array__grow", "array_insert"))}
+
+
+def rule_scoped(ctx, F):
+    """K4: a locally built list is deleted on every way out.  A local initialised with capture_quantifiers_new() owns an
+    allocation as soon as something was added to it; on every path from its declaration to the end of the function (or to
+    the declaration running again in the next loop iteration) it is passed to capture_quantifiers_delete or handed on
+    (pushed into the query).  An error return that forgets the delete leaks one block per rejected query."""
+    n = 0
+    for fn in F.fn_list:
+        if not fn.file.endswith("query.c") or not fn.blocks:
+            continue
+        for pt, e in fn.points():
+            for x in own_walk(e):
+                if x.get("k") == "decl" and x.get("init") is not None and strip(x["init"]).get("k") == "call" and callee_name(strip(x["init"])) in SCOPED_OWNERS:
+                    deleter, movers = SCOPED_OWNERS[callee_name(strip(x["init"]))]
+                    vid, nm = x["id"], x["name"]
+                    obl = []
+                    for p2, c in fn.calls():
+                        cn = callee_name(c)
+                        if cn == deleter or cn in movers or (cn or "").startswith("_array__"):
+                            if any(y.get("k") == "ref" and y.get("id") == vid for a in c.get("a", []) for y in walk(a)):
+                                obl.append(p2)
+                    for p2, e2 in fn.points():
+                        for y in own_walk(e2):
+                            if y.get("k") == "assign" and strip(y["l"]).get("k") in ("mem", "idx", "un") and any(z.get("k") == "ref" and z.get("id") == vid for z in walk(y["r"])):
+                                obl.append(p2)
+                    n += 1
+                    key = "%s:%s#%d" % (fn.name, nm, n)
+                    ctx.after("K4", "%s:%s-deleted-on-every-path" % (fn.name, nm) + ("" if n == 1 else "#%d" % n), fn, [pt], obl, "`%s` (capture_quantifiers_new) is deleted or handed on before the function is left" % nm,
+                              retrigger_is_stop=True)
+    ctx.floor("locals built with capture_quantifiers_new in query.c", n, 4)
+
+
 def run(ctx):
     for cfg in configs(ctx):
         ctx.config = cfg
@@ -856,6 +916,8 @@ def run(ctx):
         rule_borrowed(ctx, F)
         rule_kept(ctx, F)
         rule_copied_cursor(ctx, F)
+        rule_pop_once(ctx, F)
+        rule_scoped(ctx, F)
         # "freed exactly once": a clone must own its own copy of what release frees per node (shared with C08.P2)
         import C08
         C08.rule_p2(ctx, F)
